@@ -416,6 +416,12 @@ def run(ctx):
         ctx.violation(key, {'cfg': cfg, 'header': m['header'], 'target': m['target'], 'exc': m['exc'], 'load_exc': m['load_exc'],
                             'text': m['text'], 'columns': m.get('columns')})
 
+    # ---------------------------------------------------------------- growth (hosted here for its time budget): metadata models, the
+    # Beamline/Source -> probe/device table of with_beamline, the audit_conform schema loop
+    # (spec/metadata/Growth_*.tla; deviations are GROWTH-FINDINGs, not violations of C15)
+    from .. import lib_growth_metadata
+    lib_growth_metadata.run(ctx)
+
 
 META = {
     'design_ref': 'DESIGN.md §5 C15',
